@@ -213,6 +213,104 @@ func checkGuards(r *Reporter, p *Prog, rule string, rows []GuardRow) {
 				fresh := freshLocals(info, fd.Body)
 				seen := map[ast.Node]bool{}
 				opts := &FlowOpts{Info: info, SyncCallee: syncCalleeDefault(info)}
+				var chCall func(x ast.Node, se *ast.SelectorExpr, stack []ast.Node, held LockSet)
+				chCall = func(x ast.Node, se *ast.SelectorExpr, stack []ast.Node, held LockSet) {
+					sel := info.Selections[se]
+					if sel == nil || sel.Kind() != types.MethodVal {
+						return
+					}
+					fn, _ := sel.Obj().(*types.Func)
+					if fn == nil {
+						return
+					}
+					fn = fn.Origin()
+					rt := namedOfRecv(fn)
+					if rt == nil || rt.Obj().Pkg() == nil {
+						return
+					}
+					if !seen[x] {
+						mk := rt.Obj().Name() + "." + fn.Name()
+						callSites[mk]++
+						if len(stack) >= 1 {
+							switch stack[len(stack)-1].(type) {
+							case *ast.GoStmt:
+								escapes[mk] = "started with go at " + p.posStr(x.Pos())
+							case *ast.DeferStmt:
+								// a deferred helper runs at the exit of this function, before every defer
+								// registered earlier: a lock held at the defer statement is still held then,
+								// unless this function also releases it explicitly later on
+								explicit := false
+								ast.Inspect(fd.Body, func(m ast.Node) bool {
+									if es, ok := m.(*ast.ExprStmt); ok && es.Pos() > x.Pos() {
+										if c2, ok := es.X.(*ast.CallExpr); ok {
+											if op, _ := lockOp(info, c2); op == "Unlock" || op == "RUnlock" {
+												explicit = true
+											}
+										}
+									}
+									return true
+								})
+								if explicit {
+									escapes[mk] = "deferred at " + p.posStr(x.Pos()) + " in a function that unlocks explicitly afterwards"
+								}
+							}
+						}
+					}
+					for i := range rows {
+						row := &rows[i]
+						if fullPath(row.Pkg) != rt.Obj().Pkg().Path() || (row.Type != rt.Obj().Name() && row.ViaRecvType != rt.Obj().Name()) {
+							continue
+						}
+						need, ok := chOf(row, fn.Name())
+						if !ok {
+							continue
+						}
+						if seen[x] {
+							return
+						}
+						seen[x] = true
+						k := aggKey{fkey, row.Type + "." + fn.Name() + "()", "CH-" + need.String()}
+						a := aggs[k]
+						if a == nil {
+							a = &agg{first: p.posStr(x.Pos())}
+							aggs[k] = a
+						}
+						a.n++
+						if ro := rootObj(info, se.X); ro != nil && fresh[ro] {
+							return
+						}
+						exKey2 := fd.Name.Name
+						if recvT != "" {
+							exKey2 = recvT + "." + fd.Name.Name
+						}
+						if _, ex := row.Exempt[exKey2]; ex {
+							return
+						}
+						base, okp := pathOf(info, se.X)
+						if !okp {
+							a.bad = append(a.bad, fmt.Sprintf("%s: receiver of caller-holds helper is not an access path", p.posStr(x.Pos())))
+							return
+						}
+						base += embeddedChain(sel, len(sel.Index())-1)
+						want := base + "." + row.Mutex
+						if held[want] < need && !condLocked(x.Pos(), want) {
+							// a helper that calls a caller-holds helper on its own receiver is itself a
+							// candidate caller-holds helper
+							fnN := needs[fkey]
+							if fnN == nil {
+								fnN = &fnNeed{row: row, recvOnly: true}
+								needs[fkey] = fnN
+							}
+							if need > fnN.mode {
+								fnN.mode = need
+							}
+							if recvPath == "" || want != recvPath+"."+row.Mutex || (recvT != row.Type && recvT != row.ViaRecvType) || fnN.row.Mutex != row.Mutex || fnN.row.Pkg != row.Pkg {
+								fnN.recvOnly = false
+							}
+							a.bad = append(a.bad, fmt.Sprintf("%s: call of caller-holds helper %s needs %s held %s, held: %s", p.posStr(x.Pos()), fn.Name(), displayPath(want), need, held))
+						}
+					}
+				}
 				AnalyzeLocks(fd.Body, entry, opts, func(n ast.Node, stack []ast.Node, held LockSet) {
 					switch x := n.(type) {
 					case *ast.SelectorExpr:
@@ -228,6 +326,26 @@ func checkGuards(r *Reporter, p *Prog, rule string, rows []GuardRow) {
 									isCallee = true
 								}
 								break
+							}
+							// handed to a locking wrapper (lockwrap.go): a call of the method with the wrapper's
+							// lock held, not an escape
+							if !isCallee {
+								for i := len(stack) - 1; i >= 0; i-- {
+									if _, isParen := stack[i].(*ast.ParenExpr); isParen {
+										continue
+									}
+									if c, ok := stack[i].(*ast.CallExpr); ok {
+										for ai, a := range c.Args {
+											if ast.Unparen(a) == ast.Expr(x) {
+												if ns, isWrap := wrapperLocksAt(info, c, ai, held); isWrap {
+													chCall(x, x, nil, ns)
+													return
+												}
+											}
+										}
+									}
+									break
+								}
 							}
 							if fn, _ := sel.Obj().(*types.Func); fn != nil && !isCallee {
 								if rt := namedOfRecv(fn.Origin()); rt != nil {
@@ -330,101 +448,7 @@ func checkGuards(r *Reporter, p *Prog, rule string, rows []GuardRow) {
 						if !ok {
 							return
 						}
-						sel := info.Selections[se]
-						if sel == nil || sel.Kind() != types.MethodVal {
-							return
-						}
-						fn, _ := sel.Obj().(*types.Func)
-						if fn == nil {
-							return
-						}
-						fn = fn.Origin()
-						rt := namedOfRecv(fn)
-						if rt == nil || rt.Obj().Pkg() == nil {
-							return
-						}
-						if !seen[x] {
-							mk := rt.Obj().Name() + "." + fn.Name()
-							callSites[mk]++
-							if len(stack) >= 1 {
-								switch stack[len(stack)-1].(type) {
-								case *ast.GoStmt:
-									escapes[mk] = "started with go at " + p.posStr(x.Pos())
-								case *ast.DeferStmt:
-									// a deferred helper runs at the exit of this function, before every defer
-									// registered earlier: a lock held at the defer statement is still held then,
-									// unless this function also releases it explicitly later on
-									explicit := false
-									ast.Inspect(fd.Body, func(m ast.Node) bool {
-										if es, ok := m.(*ast.ExprStmt); ok && es.Pos() > x.Pos() {
-											if c2, ok := es.X.(*ast.CallExpr); ok {
-												if op, _ := lockOp(info, c2); op == "Unlock" || op == "RUnlock" {
-													explicit = true
-												}
-											}
-										}
-										return true
-									})
-									if explicit {
-										escapes[mk] = "deferred at " + p.posStr(x.Pos()) + " in a function that unlocks explicitly afterwards"
-									}
-								}
-							}
-						}
-						for i := range rows {
-							row := &rows[i]
-							if fullPath(row.Pkg) != rt.Obj().Pkg().Path() || (row.Type != rt.Obj().Name() && row.ViaRecvType != rt.Obj().Name()) {
-								continue
-							}
-							need, ok := chOf(row, fn.Name())
-							if !ok {
-								continue
-							}
-							if seen[x] {
-								return
-							}
-							seen[x] = true
-							k := aggKey{fkey, row.Type + "." + fn.Name() + "()", "CH-" + need.String()}
-							a := aggs[k]
-							if a == nil {
-								a = &agg{first: p.posStr(x.Pos())}
-								aggs[k] = a
-							}
-							a.n++
-							if ro := rootObj(info, se.X); ro != nil && fresh[ro] {
-								return
-							}
-							exKey2 := fd.Name.Name
-							if recvT != "" {
-								exKey2 = recvT + "." + fd.Name.Name
-							}
-							if _, ex := row.Exempt[exKey2]; ex {
-								return
-							}
-							base, okp := pathOf(info, se.X)
-							if !okp {
-								a.bad = append(a.bad, fmt.Sprintf("%s: receiver of caller-holds helper is not an access path", p.posStr(x.Pos())))
-								return
-							}
-							base += embeddedChain(sel, len(sel.Index())-1)
-							want := base + "." + row.Mutex
-							if held[want] < need && !condLocked(x.Pos(), want) {
-								// a helper that calls a caller-holds helper on its own receiver is itself a
-								// candidate caller-holds helper
-								fnN := needs[fkey]
-								if fnN == nil {
-									fnN = &fnNeed{row: row, recvOnly: true}
-									needs[fkey] = fnN
-								}
-								if need > fnN.mode {
-									fnN.mode = need
-								}
-								if recvPath == "" || want != recvPath+"."+row.Mutex || (recvT != row.Type && recvT != row.ViaRecvType) || fnN.row.Mutex != row.Mutex || fnN.row.Pkg != row.Pkg {
-									fnN.recvOnly = false
-								}
-								a.bad = append(a.bad, fmt.Sprintf("%s: call of caller-holds helper %s needs %s held %s, held: %s", p.posStr(x.Pos()), fn.Name(), displayPath(want), need, held))
-							}
-						}
+						chCall(x, se, stack, held)
 					}
 				})
 			}
